@@ -35,7 +35,7 @@ CeilDiv(a, b) == (a + b - 1) \div b
 \* c = [s, deg, nv, bound (has a degree bound), hid (is hiding)]
 CommSize(c) ==
   CASE c.s \in {"marlin", "pst13"} -> Plus(U(1, 0, 0, 0, 1, 0), IF c.bound /\ c.s = "marlin" THEN U(1, 0, 0, 0, 0, 0) ELSE Z0)
-    [] c.s = "sonic" -> U(1, 0, 0, 0, 0, 0)
+    [] c.s \in {"sonic", "kzg10", "stream"} -> U(1, 0, 0, 0, 0, 0)              \* one G1 element
     [] c.s = "ipa" -> Plus(U(1, 0, 0, 0, 1, 0), IF c.bound THEN U(1, 0, 0, 0, 0, 0) ELSE Z0)
     [] c.s = "hyrax" -> U(Pow2(c.nv \div 2), 0, 0, 1, 0, 0)                 \* one commitment per matrix row
     [] c.s = "mlpst" -> U(1, 0, 0, 1, 0, 0)
@@ -43,7 +43,9 @@ CommSize(c) ==
 
 \* ---------------------------------------------------------------- single-point proofs (one `open` of k polynomials)
 ProofSize(c, k) ==
-  CASE c.s \in {"marlin", "sonic"} -> Plus(U(1, 0, 0, 0, 1, 0), IF c.hid THEN U(0, 0, 1, 0, 0, 0) ELSE Z0)
+  CASE c.s \in {"marlin", "sonic", "kzg10"} -> Plus(U(1, 0, 0, 0, 1, 0), IF c.hid THEN U(0, 0, 1, 0, 0, 0) ELSE Z0)
+    \* streaming KZG: ONE G1 element whatever the number of polynomials and of evaluation points
+    [] c.s = "stream" -> U(1, 0, 0, 0, 0, 0)
     [] c.s = "pst13" -> Plus(U(c.nv, 0, 0, 1, 1, 0), IF c.hid THEN U(0, 0, 1, 0, 0, 0) ELSE Z0)
     [] c.s = "ipa" -> LET r == Log2Ceil(Pow2Ceil(c.deg + 1, 1)) IN
                       Plus(U(2 * r + 1, 0, 1, 2, 2, 0), IF c.hid THEN U(1, 0, 1, 0, 0, 0) ELSE Z0)
@@ -83,7 +85,9 @@ VARIABLES c, done
 vars == <<c, done>>
 Cases ==
   {x \in [s : SzSchemes, deg : SzDegrees, nv : SzVars, bound : BOOLEAN, hid : BOOLEAN, k : SzPolys] :
-     /\ x.s \in {"marlin", "sonic", "ipa", "ligero_uni"} => x.nv = CHOOSE v \in SzVars : TRUE
+     /\ x.s \in {"marlin", "sonic", "ipa", "ligero_uni", "kzg10", "stream"} => x.nv = CHOOSE v \in SzVars : TRUE
+     /\ x.s = "kzg10" => ~x.bound /\ x.k = 1
+     /\ x.s = "stream" => ~x.bound /\ ~x.hid
      /\ x.s \in {"hyrax", "mlpst", "ligero_ml", "brakedown"} => x.deg = CHOOSE d \in SzDegrees : TRUE
      /\ x.s = "hyrax" => x.nv % 2 = 0
      /\ x.s = "pst13" => x.nv <= 3 /\ x.deg <= 4
@@ -99,9 +103,9 @@ LinCode == c.s \in {"ligero_uni", "ligero_ml", "brakedown"}
 NCoeffs == IF c.s = "ligero_uni" THEN c.deg + 1 ELSE Pow2(c.nv)
 
 \* succinctness as statements about the laws themselves
-ConstantCommitment == c.s \in {"marlin", "sonic", "ipa", "pst13", "mlpst", "ligero_uni", "ligero_ml", "brakedown"} =>
+ConstantCommitment == c.s \in {"marlin", "sonic", "ipa", "pst13", "mlpst", "ligero_uni", "ligero_ml", "brakedown", "kzg10", "stream"} =>
    \A d2 \in SzDegrees : CommSize([c EXCEPT !.deg = d2]) = CommSize(c)
-ConstantKzgProof == c.s \in {"marlin", "sonic"} => \A d2 \in SzDegrees, k2 \in SzPolys : ProofSize([c EXCEPT !.deg = d2], k2) = ProofSize(c, c.k)
+ConstantKzgProof == c.s \in {"marlin", "sonic", "kzg10", "stream"} => \A d2 \in SzDegrees, k2 \in SzPolys : ProofSize([c EXCEPT !.deg = d2], k2) = ProofSize(c, c.k)
 IpaLogarithmic == c.s = "ipa" => ProofSize(c, c.k).g = 2 * Log2Ceil(Pow2Ceil(c.deg + 1, 1)) + 1 + (IF c.hid THEN 1 ELSE 0)
 HyraxSquareRoot == c.s = "hyrax" => CommSize(c).g * CommSize(c).g = Pow2(c.nv)
 
